@@ -70,3 +70,7 @@ def run(ctx):
     ctx.floor("F6", 4)
     ctx.floor("F7", 3)
     ctx.floor("F5", 3)
+    # a rule asks its strategy the same question it is asked (round 10)
+    from ..engines import dispatch as DP5
+    DP5.d5_rule_delegates_to_the_same_question(ctx)
+    ctx.floor("D5", 4)
